@@ -928,6 +928,13 @@ class CallMixin:
                         return const(any(hit))
         key = "|".join(sorted(names))
         self._remember([a])
+        if len(names) > 1 and all(n in self.M.classes for n in names):
+            # a union whose members were already decided one by one
+            known = [self.facts.get(("isinst", a.t, n)) for n in names]
+            if any(k is True for k in known):
+                return TRUE
+            if all(k is False for k in known):
+                return FALSE
         return V(("isinst", a.t, key), [py("bool")], a.dep)
 
     def bi_hasattr(self, a, namev):
